@@ -937,3 +937,20 @@ pub fn gen_stream(rng: &mut Rng, w: &StreamWish) -> Vec<Piece> {
 pub fn count_kind(pieces: &[Piece], k: Kind) -> usize {
     pieces.iter().filter(|p| p.kind == k).count()
 }
+
+/// A garbage piece holding whitespace and a string, array or object cut strictly inside
+/// (a producer that died inside a value): never a complete JSON value.
+pub fn gen_truncated_tail(rng: &mut Rng) -> Piece {
+    let v = match rng.below(3) {
+        0 => Val::Str(gen_string(rng) + "x"),
+        1 => Val::Arr(vec![gen_val(rng, 2, false), gen_val(rng, 1, false)]),
+        _ => Val::Obj(vec![("k".into(), gen_val(rng, 2, false)), ("s".into(), Val::Str(gen_string(rng)))]),
+    };
+    let text = spell(&v, rng, 1);
+    let cut = rng.range(1, text.len() - 1);
+    let mut g = vec![*rng.pick(&[b' ', b'\n'])];
+    g.extend_from_slice(&text[..cut]);
+    let mut p = Piece::garbage(g);
+    p.tag = "truncated".into();
+    p
+}
